@@ -42,7 +42,9 @@ type Scenario struct {
 
 type preState struct {
 	engines   []*yae.Expr
+	specs     []EngineSpec
 	callables []yae.Callable
+	callSpecs []EngineSpec
 	envs      map[string]interface{}
 }
 
@@ -62,6 +64,7 @@ func buildPre(sc *Scenario, recs []*recorder) *preState {
 	}
 	for _, spec := range sc.Shared {
 		ps.engines = append(ps.engines, buildEngine(spec, rf))
+		ps.specs = append(ps.specs, spec)
 	}
 	for _, pc := range sc.Pre {
 		var c yae.Callable
@@ -75,6 +78,11 @@ func buildPre(sc *Scenario, recs []*recorder) *preState {
 			}()
 		}
 		ps.callables = append(ps.callables, c)
+		var cs EngineSpec
+		if pc.E >= 0 && pc.E < len(ps.specs) {
+			cs = ps.specs[pc.E]
+		}
+		ps.callSpecs = append(ps.callSpecs, cs)
 	}
 	for name, mk := range envMakers {
 		ps.envs[name] = mk()
@@ -86,7 +94,9 @@ func buildPre(sc *Scenario, recs []*recorder) *preState {
 func runScript(ops []Op, ps *preState, rec *recorder, region bool) []string {
 	out := make([]string, len(ops))
 	engines := map[int]*yae.Expr{}
+	specs := map[int]EngineSpec{}
 	calls := map[int]yae.Callable{}
+	callSpec := map[int]EngineSpec{}
 	rf := func() *recorder { return rec }
 	for i := range ops {
 		op := &ops[i]
@@ -105,15 +115,18 @@ func runScript(ops []Op, ps *preState, rec *recorder, region bool) []string {
 				return "nop"
 			case "engine":
 				engines[i] = buildEngine(*op.Spec, rf)
+				specs[i] = *op.Spec
 				return "ok"
 			case "compile":
 				var e *yae.Expr
 				if op.ES {
 					if op.E >= 0 && op.E < len(ps.engines) {
 						e = ps.engines[op.E]
+						callSpec[i] = ps.specs[op.E]
 					}
 				} else {
 					e = engines[op.E]
+					callSpec[i] = specs[op.E]
 				}
 				if e == nil {
 					return "skip"
@@ -130,12 +143,15 @@ func runScript(ops []Op, ps *preState, rec *recorder, region bool) []string {
 				return "ok"
 			case "invoke":
 				var c yae.Callable
+				var cspec EngineSpec
 				if op.CS {
 					if op.C >= 0 && op.C < len(ps.callables) {
 						c = ps.callables[op.C]
+						cspec = ps.callSpecs[op.C]
 					}
 				} else {
 					c = calls[op.C]
+					cspec = callSpec[op.C]
 				}
 				if c == nil {
 					return "skip"
@@ -150,11 +166,14 @@ func runScript(ops []Op, ps *preState, rec *recorder, region bool) []string {
 					simrt.Enter("h.invoke")
 					defer simrt.Leave("h.invoke")
 				}
-				v, err := c(env)
+				v, dbg, err := callWith(cspec, c, env)
 				if err != nil {
 					return "err"
 				}
-				return "val:" + render(v) + callsSuffix(rec)
+				if dbg != "" {
+					dbg = "|dbg:" + dbg
+				}
+				return "val:" + render(v) + callsSuffix(rec) + dbg
 			case "eval":
 				v, err := yae.Eval(op.Prog.Src, envMakers[op.Prog.Env]())
 				if err != nil {
@@ -496,7 +515,7 @@ func genTimeScenario(r *rng, cold bool) *Scenario {
 func genContendScenario(r *rng) *Scenario {
 	sc := &Scenario{}
 	user := r.chance(0.4)
-	sc.Shared = []EngineSpec{{backends[r.intn(4)], user}}
+	sc.Shared = []EngineSpec{{pickBackend(r), user}}
 	warm := pickProg(r, user)
 	sc.Pre = []PreCompile{{0, warm}}
 	srcs := []string{genericSrcs[r.intn(len(genericSrcs))], genericSrcs[r.intn(len(genericSrcs))]}
@@ -530,7 +549,7 @@ func genScenario(r *rng, cold bool) *Scenario {
 	if !cold {
 		ns := r.intn(3)
 		for i := 0; i < ns; i++ {
-			sc.Shared = append(sc.Shared, EngineSpec{backends[r.intn(4)], r.chance(0.5)})
+			sc.Shared = append(sc.Shared, EngineSpec{pickBackend(r), r.chance(0.5)})
 		}
 		for e := range sc.Shared {
 			np := 1 + r.intn(3)
@@ -568,7 +587,7 @@ func genScenario(r *rng, cold bool) *Scenario {
 				callEnv[i] = p.Env
 			case c < 7 || len(myEngines) == 0 && c < 9: // F2: private engine
 				if len(myEngines) == 0 || r.chance(0.3) {
-					spec := EngineSpec{backends[r.intn(4)], r.chance(0.5)}
+					spec := EngineSpec{pickBackend(r), r.chance(0.5)}
 					ops = append(ops, Op{K: "engine", Spec: &spec})
 					myEngines = append(myEngines, i)
 					i++
@@ -605,7 +624,7 @@ func invokeEnv(r *rng, compiled string) string {
 
 func genSimConfig(r *rng) simrt.Config {
 	c := simrt.Config{Seed: r.u64() | 1, ClockSeam: true, ClockBase: 1700000000}
-	switch r.intn(10) {
+	switch r.intn(12) {
 	case 0, 1:
 		c.Sched, c.SwitchProb = simrt.SchedRandom, 0.01
 	case 2, 3:
@@ -617,6 +636,8 @@ func genSimConfig(r *rng) simrt.Config {
 	case 6, 7:
 		c.Sched = simrt.SchedPCT
 	default:
+		// store-/synchronisation-biased: preempt only at read-modify-write splits and
+		// at sync / atomic operations (and at the yield following one)
 		c.Sched = simrt.SchedStore
 	}
 	// hash-order modes that are a fixed function of the map (sorted / reverse /
